@@ -1,7 +1,7 @@
 (* C03 - Version strings: accepted language and dpkg-style decomposition. *)
 From Coq Require Import String.
 From Coq Require Import NArith List Bool.
-From DI Require Import Result PyStr Version Policy ParseFacts.
+From DI Require Import Result PyStr Version Policy ParseFacts EntryPoints.
 Import ListNotations.
 Open Scope N_scope.
 
@@ -41,3 +41,28 @@ Proof. eexists. repeat split; vm_compute; reflexivity. Qed.
 
 Example C03_rejects_nonascii_digit : from_string (lit "1:" ++ [1634]) = Raise ValueError.
 Proof. vm_compute. reflexivity. Qed.
+
+(* the other ways in that take version strings accept exactly the strings from_string accepts and
+   reject the others with ValueError: comparing two strings, evaluating a constraint between them *)
+Theorem C03_compare_versions_accepts_the_same : forall a b,
+  (exists r, compare_versions a b = Ok r) <-> (exists va vb, from_string a = Ok va /\ from_string b = Ok vb).
+Proof. exact compare_versions_accepts. Qed.
+Print Assumptions C03_compare_versions_accepts_the_same.
+
+Theorem C03_compare_versions_reject_is_ValueError : forall a b e, compare_versions a b = Raise e -> e = ValueError.
+Proof. exact compare_versions_rejects. Qed.
+Print Assumptions C03_compare_versions_reject_is_ValueError.
+
+Theorem C03_eval_constraint_accepts_the_same : forall a o b op, parse_op o = Some op ->
+  ((exists r, eval_constraint a o b = Ok r) <-> (exists va vb, from_string a = Ok va /\ from_string b = Ok vb)).
+Proof. exact eval_constraint_accepts. Qed.
+Print Assumptions C03_eval_constraint_accepts_the_same.
+
+Theorem C03_eval_constraint_reject_is_ValueError : forall a o b e, eval_constraint a o b = Raise e -> e = ValueError.
+Proof. exact eval_constraint_rejects. Qed.
+Print Assumptions C03_eval_constraint_reject_is_ValueError.
+
+Example C03_entry_points_nonvacuous :
+  compare_versions (lit "a") (lit "1") = Raise ValueError /\ compare_versions (lit " 1.0 ") (lit "1.0-0") = Ok Z0 /\
+  eval_constraint (lit "1") (lit ">=") (lit "v1") = Raise ValueError /\ parse_op (lit ">=") <> None.
+Proof. vm_compute. repeat split; try reflexivity. discriminate. Qed.
